@@ -39,6 +39,7 @@ CATALOG = {
     "rpA":   retry(2, a=[cE("E2")]),                     # aborts on E2
     "rpAR":  retry(2, h=[cR("R1")], a=[cR("R1")]),       # abort condition overlaps the handled result
     "rpL":   retry(1, rlf=True),
+    "rpAM":  retry(2, a=[cR("R1"), cE("E2")], h=[cR("R1")]),   # abort conditions of two kinds (a result and an error), registered by two calls
     "rpA2":  retry(2, a=[cE("E1"), cE("E2")]),           # two abort errors in one registration
     "rpH2":  retry(1, h=[cE("E1"), cE("E2")]),           # two handled errors in one registration (E3 etc. unhandled)
     "rpT":   retry(1, h=[cT("TV")]),                     # only errors of type TV are failures (HandleErrorTypes alone)
